@@ -12,6 +12,11 @@ from . import models as M
 from .speclib import Callback
 
 REGISTRY = []
+BOUNDED_ONLY = {}     # property -> {driver name: why no deductive contract}; run in every tier, labelled bounded, never counted as proved
+
+
+def bounded_only(prop, name, why):
+    BOUNDED_ONLY.setdefault(prop, {})[name] = why
 
 
 class LoopSpec:
@@ -194,6 +199,8 @@ def verify(contract_cls, repo=None, timeout_ms=None):
             try:
                 if getattr(c, "lemma_only", False):
                     result = None       # a spec-level lemma: nothing of the repository is executed
+                elif inputs.get("prop_get"):
+                    result = it.getattr(self_obj, c.qualname.split(".")[1])
                 elif inputs.get("setter"):
                     result = it.setattr(self_obj, c.qualname.split(".")[1], args[0])
                 elif self_obj is not None:
